@@ -22,12 +22,19 @@ def run(tier, seed):
         r = vhr(["master", "--in", b], (2 if quick else 6) if mode == "f" else (5 if quick else 40), seed, tier, name=f"c16{mode}")
         v.add_report(r, "filters" if mode == "f" else "paging")
         reps.append(r)
+    # implementation -> specification: recorded random page sequences (1-8 pages, small host pool) validated by TLC
+    tf = f"{w}/master_trace.ndjson"
+    rt = vh(["master-trace", "--runs", 3000 if quick else 60000, "--seed", seed, "--out-trace", tf], name="c16t")
+    v.add_report(rt, "recorded page sequences")
+    reps.append(rt)
+    validated, ts = validate_trace(v, "Trace_MasterServer.tla", "Trace_MasterServer.cfg", tf, splitter="Call", max_rounds=8)
+    mc.append(dict(ts, cfg="Trace_MasterServer.cfg", events=rt.get("extra", {}).get("events")))
     nviol, _ = v.finish()
     cov = std_cov(mc + gens, reps, {
         "rule": "filters: every insertion sequence TLC enumerates (quick: length <= 2 over 18 kinds x 3 groups x 2 values; thorough: length <= 3) "
                 "performed through the public API, the emitted request parsed by a reference grammar and compared group by group; paging: every "
                 "page-length sequence (lengths 0,1,2,230; up to 4 / 6 pages) with random addresses; distinct by behaviour",
-        "exhaustive": True})
+        "exhaustive": True}, validated=validated)
     write_evidence(PID, tier, seed, "model_checking", cov, time.time() - t0, nviol,
                    ["D4: the terminator occurs only as the last entry of the last page", "filter values are texts without backslash / NUL",
                     "reference grammar parser of the harness (40 lines) is trusted"])
